@@ -48,6 +48,11 @@ def extra_docs():
     r3 = copy.deepcopy(ns["RULE"])
     r3["date"], r3["modified"] = datetime.date(2024, 1, 5), datetime.datetime(2024, 2, 3, 4, 5, 6)
     docs.append(("rule", r3))
+    # date objects of years no date written as text may have (0999, 4000): either not loadable, or written so that they load again
+    for y in (999, 4000):
+        ry = copy.deepcopy(ns["RULE"])
+        ry["date"] = datetime.date(y, 1, 1)
+        docs.append(("rule", ry))
     # a log source with an additional key of the rule author's own, in a rule and in a filter
     r4 = copy.deepcopy(ns["RULE"])
     r4["logsource"]["vendor_hint"] = "foo"
